@@ -1062,6 +1062,15 @@ class DContract(MEContract, c08.MPSContract):
                 return args[0]
             if is_z3(args[0]):
                 raise PyRaise("TypeError", line)  # tuple(number): 'int' / 'float' object is not iterable
+        if name in ("max", "min") and len(args) == 1 and isinstance(args[0], SeqV):
+            # [leaf] max / min of a non-empty sequence: one of its items, bounding all of them
+            sq = args[0]
+            cx.oblige(f"index@{line}: {name}() of a non-empty sequence", "index", sq.n >= 1, line)
+            m, w, j = cx.Int(f"{name}_of_seq"), cx.Int(f"arg{name}"), z3.Int("j_seq")
+            cx.assume(And(0 <= w, w < sq.n, m == sq.at(w)))
+            bound = (m >= sq.at(j)) if name == "max" else (m <= sq.at(j))
+            cx.assume(z3.ForAll([j], Implies(And(0 <= j, j < sq.n), bound)))
+            return m
         if name == "itertools.repeat" and len(args) == 1:
             return RepeatV(args[0])
         if name == "itertools.chain" and len(args) == 2 and isinstance(args[1], RepeatV):
